@@ -85,13 +85,13 @@ func (h *coreEventHeap) Pop() any {
 
 // Emitted describes one datagram handed to the output callback.
 type Emitted struct {
-	From  int
-	Idx   int // per-direction emission index
-	At    int64
-	Raw   []byte
-	Segs  []wire.Segment
-	Err   error // wire parse error, if any
-	Fate  Fate
+	From int
+	Idx  int // per-direction emission index
+	At   int64
+	Raw  []byte
+	Segs []wire.Segment
+	Err  error // wire parse error, if any
+	Fate Fate
 }
 
 type coreEP struct {
@@ -111,15 +111,15 @@ type coreEP struct {
 
 // CoreStats are the observations a run collects for the non-triviality rules.
 type CoreStats struct {
-	Emitted, Dropped, Duplicated     [2]int
-	PushSegs, Retrans                [2]int // PUSH segments on the wire; of which repeats of an sn already seen
-	OutOfOrder                       [2]int // times the receive heap was non-empty after an Input
-	SmallReads                       int    // reads with a buffer smaller than the pending message/segment
-	LostPush, LostAck                int    // dropped datagrams carrying PUSH / carrying ACK
-	MaxDeliveredDelay                int32
-	Steps                            int
-	EndMs                            int64
-	Done                             bool
+	Emitted, Dropped, Duplicated [2]int
+	PushSegs, Retrans            [2]int // PUSH segments on the wire; of which repeats of an sn already seen
+	OutOfOrder                   [2]int // times the receive heap was non-empty after an Input
+	SmallReads                   int    // reads with a buffer smaller than the pending message/segment
+	LostPush, LostAck            int    // dropped datagrams carrying PUSH / carrying ACK
+	MaxDeliveredDelay            int32
+	Steps                        int
+	EndMs                        int64
+	Done                         bool
 }
 
 // CoreSim runs two raw KCP cores against each other over a scripted network
@@ -147,7 +147,7 @@ type CoreSim struct {
 	// InCall names the API call in progress when a callback fires.
 	InCall string
 
-	opIdx int
+	opIdx  int
 	start  time.Time
 	events coreEventHeap
 	seq    int64
